@@ -96,6 +96,16 @@ theorem C09_sigmaL_variance_error {N : ℕ} (L B C : Matrix (Fin N) (Fin N) ℝ)
     ← mul_sub, abs_mul, abs_of_nonneg (sq_nonneg m0)]
   exact mul_le_mul_of_nonneg_left (coded_bound L B hL hsym hidem n hℓ) (sq_nonneg m0)
 
+/-- why `(L B Lᵀ)_nn` is the TRUE cofactor: with the homogenised design `Ā` (`L Ā = A`, what
+    `prepareProjectEquations()` leaves: `Lgen · Ad = A`, `Lemmas/Ls/NetFacade.prepare_solve`) and the hat matrix
+    `B = Ā Q Āᵀ` the solver returns as `q_bb`, the cofactor matrix of the adjusted observations in their own units,
+    `A Q Aᵀ`, is `L B Lᵀ` — for any matrices (no assumption on `Q`) -/
+theorem C09_adjusted_obs_cofactor {N M : ℕ} (L : Matrix (Fin N) (Fin N) ℝ) (Ad A : Matrix (Fin N) (Fin M) ℝ)
+    (Q : Matrix (Fin M) (Fin M) ℝ) (B : Matrix (Fin N) (Fin N) ℝ) (hA : L * Ad = A) (hB : B = Ad * Q * Adᵀ) :
+    A * Q * Aᵀ = L * B * Lᵀ := by
+  rw [← hA, hB, Matrix.transpose_mul]
+  simp only [Matrix.mul_assoc]
+
 /-! ## at `LocalNetwork` -/
 
 /-- (e) **at `LocalNetwork`**, all four algorithms, input-side hypotheses of `C09_stdev_of_net_gap`: what
@@ -230,5 +240,29 @@ example : 2 * (!![1, 0; 1, 1] : Matrix (Fin 2) (Fin 2) ℝ) 0 0
   C09_sigmaL_bound_diag_row _ _ 0 (fun j hj => absurd hj (Fin.not_lt_zero j))
 
 end examples
+
+section netExample
+open Gama.Ls.Ex
+
+/-- `C09_sigmaL_of_net_is_whitened_row` APPLIED over ℝ to `Ex.npR` (its first cluster is CORRELATED: active block
+    `[[16,8],[8,40]]`; envelope, cholesky, gso; both `sigma-act` modes; every observation) -/
+example (alg : Alg) (halg : alg ≠ .svd) (act : SigmaAct) (i : Fin (toProblem npR).n) (k : Fin (toProblem npR).m) :
+    ∃ (a : NetAnswer ℝ) (m0 sL : ℝ) (B : Matrix (Fin (toProblem npR).m) (Fin (toProblem npR).m) ℝ),
+      netSolve alg npR = .ok a ∧ a.m0 npR act = .ok m0 ∧ a.stdevObs npR act (k.val + 1) = .ok sL ∧
+      sL ^ 2 = m0 ^ 2 * (B k k * (toProblem npR).C k k) ∧ Bᵀ = B ∧ B * B = B := by
+  have T := C09_sigmaL_of_net_is_whitened_row alg npR
+  have G := Props.C01.C01_net_inputgap_witness alg halg
+  have A := Props.C01.C01_net_answers_witness alg halg
+  revert T G A i k
+  rw [scalarReal_eq_fieldScalar]
+  intro i k T G A
+  obtain ⟨a, ha, -⟩ := A
+  obtain ⟨m0, sL, B, h1, -, -, hs, hi, -, -, h10, -, hsq, -⟩ :=
+    T (npW_dims 2 [1]) (npW_rows 2 [1]) (by show (0 : ℝ) < 2; norm_num) _
+      (weight_of_sigma npR (npW_dims 2 [1]) (by show (2 : ℝ) ≠ 0; norm_num) PcN npR_sigma_inv)
+      (npW_regListOK 2 [1] (Or.inl rfl)) G a ha act i k
+  exact ⟨a, m0, sL, B, ha, h1, h10, hsq, hs, hi⟩
+
+end netExample
 
 end Gama.Props.C09
